@@ -1,6 +1,7 @@
 package main
 
 import (
+	"fmt"
 	"sort"
 
 	"verifharness/vlib"
@@ -138,6 +139,7 @@ type scriptWorld struct {
 	dag        []Chg
 	dm         map[int]Chg
 	contentErr int
+	contentErrMsg string
 	localOnMulti int // local changes created on a tree with >= 2 heads
 	localOnSkew  int // ... where the head with the greatest id was not the last iterated one
 }
@@ -223,6 +225,9 @@ func (sw *scriptWorld) applyOp(op Op) {
 		c, err := p.AddContent(op.ID, op.K == "snapshot", op.Pad, int64(1700000000+op.ID))
 		if err != nil {
 			sw.contentErr++
+			if sw.contentErrMsg == "" {
+				sw.contentErrMsg = fmt.Sprintf("op %s on replica %d (heads %v): %v", op.K, op.P, p.Heads(), err)
+			}
 			return
 		}
 		sw.dm[c.ID] = c
